@@ -174,14 +174,26 @@ func runImpl(t vkit.TB, order []string, grace time.Duration, conns map[int]*ccon
 	}
 	// the listener's drain goroutine may still be closing conns it received: give
 	// it a moment before reading the close counters (it is not joinable)
-	deadline := time.Now().Add(2 * time.Second)
+	// Which conns entered the listener is decided ONCE, here: a conn that the
+	// ingress-listener's goroutine takes from its source after this instant is
+	// outside the judged set (it will be closed by the listener later, but reading
+	// its state now would race with that goroutine).
+	ingressed := map[int]bool{}
+	for id, c := range conns {
+		if wasIngressed(order, id, c) {
+			ingressed[id] = true
+		}
+	}
+	deadline := time.Now().Add(5 * time.Second)
 	for {
 		missing := 0
-		for id, c := range conns {
-			if wasIngressed(order, id, c) && led.returned[id] == 0 && c.closes.Load() == 0 {
+		led.mu.Lock()
+		for id := range ingressed {
+			if led.returned[id] == 0 && conns[id].closes.Load() == 0 {
 				missing++
 			}
 		}
+		led.mu.Unlock()
 		if missing == 0 || time.Now().After(deadline) {
 			break
 		}
@@ -205,7 +217,7 @@ func runImpl(t vkit.TB, order []string, grace time.Duration, conns map[int]*ccon
 	sort.Ints(ids)
 	led2 := map[string]string{}
 	for _, id := range ids {
-		if !wasIngressed(order, id, conns[id]) {
+		if !ingressed[id] {
 			continue
 		}
 		r, c := led.returned[id], conns[id].closes.Load()
@@ -213,6 +225,9 @@ func runImpl(t vkit.TB, order []string, grace time.Duration, conns map[int]*ccon
 		switch {
 		case r == 0 && c == 0:
 			detail["ledger"] = led2
+			buf := make([]byte, 1<<18)
+			buf = buf[:runtime.Stack(buf, true)]
+			detail["goroutines_at_detection"] = clipStr(string(buf), 12000)
 			return "conn-neither-returned-nor-closed", detail, nontrivial
 		case r > 0 && c > 0:
 			detail["ledger"] = led2
